@@ -1,6 +1,7 @@
 package patch
 
 import (
+	"reflect"
 	"syscall"
 
 	"github.com/tencent/goom/internal/bytecode/memory"
@@ -294,4 +295,66 @@ func VC_C11_fault_isolation() {
 	}
 	vFailLo, vFailHi = 0, 0
 	verifReached("C11.fault")
+}
+
+func vC11Target(i int) int { return i + 1 }
+
+type vC11T struct{ n int }
+
+func (t *vC11T) M(i int) int { return t.n + i }
+
+func vC11ReplM(t *vC11T, i int) int { return i + 300 }
+
+// vPlaceAt puts the bytes of the small complete function at the code address of a Go
+// function of the harness.
+func vPlaceAt(f interface{}) uintptr {
+	a := verifFuncCode(f)
+	for i := 0; i < len(vFnBytes); i++ {
+		verifImgStore(a+uintptr(i), vFnBytes[i])
+	}
+	return a
+}
+
+// VC_C11_entry_points: two goroutines mock disjoint targets through different entry points
+// of the patch layer (by code pointer, by function value, by type and method name - what
+// Func, ExportFunc and Struct().Method mocks end in): every interleaving is free of data
+// races on the patch table and both mocks are installed.
+func VC_C11_entry_points() {
+	patches = make(map[uintptr]*patch)
+	t0, t1 := vPlaceAt(vC11Target), vPlaceAt((*vC11T).M)
+	verifApart(t0, t1, 4096)
+	e0, e1 := verifChoice("entry0", 2), verifChoice("entry1", 2)
+	var errs [2]error
+	verifSpawn(func() {
+		var g *Guard
+		if e0 == 0 {
+			g, errs[0] = PtrTrampoline(t0, vC11ReplA, nil)
+		} else {
+			g, errs[0] = Trampoline(vC11Target, vC11ReplA, nil)
+		}
+		if errs[0] == nil {
+			g.Apply()
+		}
+	})
+	verifSpawn(func() {
+		var g *Guard
+		if e1 == 0 {
+			g, errs[1] = InstanceMethodTrampoline(reflect.TypeOf(&vC11T{}), "M", vC11ReplM, nil)
+		} else {
+			g, errs[1] = UnsafePatchTrampoline((*vC11T).M, vC11ReplM, nil)
+		}
+		if errs[1] == nil {
+			g.Apply()
+		}
+	})
+	verifJoin()
+	verifAssert(errs[0] == nil && errs[1] == nil, "C11.entry.both-mocks-accepted")
+	w0 := jmpToFunctionValue(t0, verifFuncAddr(vC11ReplA))
+	w1 := jmpToFunctionValue(t1, verifFuncAddr(vC11ReplM))
+	for k := 0; k < 13; k++ {
+		verifAssert(verifImgLoad(t0+uintptr(k)) == w0[k], "C11.entry.first-target-holds-its-jump")
+		verifAssert(verifImgLoad(t1+uintptr(k)) == w1[k], "C11.entry.second-target-holds-its-jump")
+	}
+	verifAssert(len(patches) == 2, "C11.entry.table-has-both")
+	verifReached("C11.entry-points")
 }
